@@ -42,7 +42,9 @@ package machine
 //@   ensures memsub:  forall x E :: mem(ret, x) ==> mem(coll, x)
 //@   ensures keepall: len(ret) == len(coll) ==> (forall x E :: mem(coll, x) ==> mem(ret, x))
 //@   ensures allpass: (forall i int :: 0 <= i && i < len(coll) ==> fn(coll[i], i)) ==> seqeq(ret, coll)
+//@   ensures order: nodup(coll) ==> (forall a, b int :: 0 <= a && a < b && b < len(ret) ==> index(coll, ret[a]) < index(coll, ret[b]))
 //@   loop 1 invariant sub:  len(ret) <= i && fresh(ret) && !isnil(ret)
+//@   loop 1 invariant order: nodup(coll) ==> (forall a, b int :: 0 <= a && a < b && b < len(ret) ==> index(coll, ret[a]) < index(coll, ret[b])) && (forall a int :: 0 <= a && a < len(ret) ==> 0 <= index(coll, ret[a]) && index(coll, ret[a]) < i)
 //@   loop 1 invariant mem:  forall x E :: mem(ret, x) <==> (exists j int :: 0 <= j && j < i && coll[j] == x && fn(x, j))
 //@   loop 1 invariant full: len(ret) == i ==> (forall j int :: 0 <= j && j < i ==> ret[j] == coll[j] && fn(coll[j], j))
 //@   loop 1 invariant nodup: nodup(coll) ==> nodup(ret)
@@ -94,12 +96,14 @@ package machine
 //@   ensures def:   forall x string :: mem(ret, x) <==> mem(states1, x) && !mem(states2, x)
 //@   ensures lenle: len(ret) <= len(states1)
 //@   ensures full:  len(ret) == len(states1) <==> (forall i int :: 0 <= i && i < len(states1) ==> !mem(states2, states1[i]))
+//@   ensures order: nodup(states1) ==> (forall a, b int :: 0 <= a && a < b && b < len(ret) ==> index(states1, ret[a]) < index(states1, ret[b]))
 //@   ensures fresh: fresh(ret)
 //@   ensures nodup: nodup(states1) ==> nodup(ret)
 
 //@ func StatesShared(states1 S, states2 S) (ret S)
 //@   props C02 C20
 //@   ensures def:   forall x string :: mem(ret, x) <==> mem(states1, x) && mem(states2, x)
+//@   ensures order: nodup(states1) ==> (forall a, b int :: 0 <= a && a < b && b < len(ret) ==> index(states1, ret[a]) < index(states1, ret[b]))
 //@   ensures fresh: fresh(ret)
 //@   ensures nodup: nodup(states1) ==> nodup(ret)
 
